@@ -34,6 +34,8 @@ var Leaves = []Leaf{
 	{Text: `"a*b"`, Kind: "str", Str: "a*b"},
 	{Text: `"wh?t"`, Kind: "str", Str: "wh?t"},
 	{Text: `"/sl/"`, Kind: "str", Str: "/sl/"},
+	{Text: `""`, Kind: "str", Str: ""},
+	{Text: `"l'été"`, Kind: "str", Str: "l'été"},
 	{Text: "9007199254740993", Kind: "int", Int: 9007199254740993},
 	{Text: "-9223372036854775807", Kind: "int", Int: -9223372036854775807},
 }
@@ -278,7 +280,22 @@ func atom(r *Rng) *Ft {
 		v := Pick(r, Leaves)
 		return &Ft{K: "cmp", F: Pick(r, FieldLeaves), V: v, Gt: r.Chance(1, 2), OrEq: r.Chance(1, 2)}
 	default:
-		return &Ft{K: "range", F: Pick(r, FieldLeaves), Lo: Pick(r, Leaves), Hi: Pick(r, Leaves), LSq: r.Chance(2, 3), RSq: r.Chance(2, 3)}
+		lo, hi := Pick(r, Leaves), Pick(r, Leaves)
+		star := Leaf{Text: "*", Kind: "wild", Str: "*"}
+		// open ends, each with probability 1/5 (so both ends open in 1 range of 25), and the empty string as a bound
+		if r.Chance(1, 5) {
+			lo = star
+		}
+		if r.Chance(1, 5) {
+			hi = star
+		}
+		if r.Chance(1, 20) {
+			lo = Leaf{Text: `""`, Kind: "str", Str: ""}
+		}
+		if r.Chance(1, 20) {
+			hi = Leaf{Text: `""`, Kind: "str", Str: ""}
+		}
+		return &Ft{K: "range", F: Pick(r, FieldLeaves), Lo: lo, Hi: hi, LSq: r.Chance(2, 3), RSq: r.Chance(2, 3)}
 	}
 }
 
